@@ -225,6 +225,33 @@ type stringerT struct{ s string }
 
 func (s stringerT) String() string { return s.s }
 
+// byte-kind element types with their own (un)marshalers, by value and by pointer receiver
+type byteVJ uint8
+
+func (b byteVJ) UnmarshalJSON(x []byte) error { return nil }
+func (b byteVJ) MarshalJSON() ([]byte, error) { return []byte(`7`), nil }
+
+type byteVT uint8
+
+func (b byteVT) UnmarshalText(x []byte) error { return nil }
+func (b byteVT) MarshalText() ([]byte, error) { return []byte("t"), nil }
+
+type bytePJ uint8
+
+func (b *bytePJ) UnmarshalJSON(x []byte) error { *b = bytePJ(len(x)); return nil }
+
+type bytePT uint8
+
+func (b *bytePT) UnmarshalText(x []byte) error { *b = bytePT(len(x)); return nil }
+
+var byteElemTargets = []func() any{
+	func() any { return new([]byteVJ) }, func() any { return new([]byteVT) }, func() any { return new([]bytePJ) }, func() any { return new([]bytePT) },
+	func() any { return new([2]byteVJ) }, func() any { return new([3]byteVT) }, func() any { return new(struct{ F []byteVJ }) }, func() any { return new(map[string][]byteVT) },
+	func() any { return new([][]bytePJ) }, func() any { return new(*[]byteVJ) },
+}
+
+var byteElemDocs = []string{`[1,2]`, `"AQI="`, `["a","b"]`, `null`, `[]`, `{"F":[1,"x"]}`, `{"k":["a"]}`, `[[1],[2,3]]`, `[`, `"not base64!"`, `[null,{}]`}
+
 var ifaceMaps = []func() any{
 	func() any { return map[string]fmt.Stringer{"a": stringerT{"x"}, "b": time.Second, "c": nil} },
 	func() any {
@@ -247,6 +274,17 @@ func runEncodeValues(c *core.Case) {
 			json.Unmarshal([]byte(core.Pick(c.Rng, []string{`{"a":1,"b":"x","c":null}`, `{"e":{}}`, `[{"a":"s"}]`, `{"M":{"e":null,"f":1}}`, `null`})), tv.Interface())
 		})
 		call(c, "encode-values|map-of-non-empty-interface|Marshal-of-decoded", w, func() { json.Marshal(tv.Interface()) })
+	}
+	{
+		mk := byteElemTargets[c.Index%len(byteElemTargets)]
+		doc := byteElemDocs[(c.Index/len(byteElemTargets))%len(byteElemDocs)]
+		tv := mk()
+		w := map[string]any{"type": fmt.Sprintf("%T", tv), "doc": doc}
+		call(c, "encode-values|byte-kind-elements|Unmarshal", w, func() { json.Unmarshal([]byte(doc), tv) })
+		call(c, "encode-values|byte-kind-elements|Marshal-of-decoded", w, func() { json.Marshal(tv) })
+		call(c, "encode-values|byte-kind-elements|Marshal", w, func() {
+			json.Marshal([]any{[]byteVJ{1, 2}, []byteVT{3}, []bytePJ{4}, []bytePT{5, 6}, [2]byteVJ{}, map[string][]byteVT{"k": {1}}})
+		})
 	}
 	t := pickType(c)
 	f := &jtypes.Filler{R: c.Rng.Fork(2), NoNaN: c.Index%3 != 0, RawValid: c.Index%2 == 0, MaxLen: 6}
@@ -529,9 +567,14 @@ func runDeepDecode(c *core.Case) {
 // pointer held by an interface; going round the cycle consumes no input, so it must stop by itself.
 var cyclicTargetDocs = []string{`{"a":"b"}`, `[1,2,3]`, `null`, `"s"`, `7`, `{"X":[1,2,3]}`, `{"X":{"X":null}}`, `[`, ``, `{"X":`, `tru`}
 
+// dynT is a named interface type without methods.
+type dynT interface{}
+
+type dynHolder struct{ X dynT }
+
 func runCyclicTargets(c *core.Case) {
 	doc := []byte(cyclicTargetDocs[c.Index%len(cyclicTargetDocs)])
-	shape := (c.Index / len(cyclicTargetDocs)) % 6
+	shape := (c.Index / len(cyclicTargetDocs)) % 9
 	c.Budget(120 * time.Second)
 	type T struct{ X any }
 	var target any
@@ -563,6 +606,23 @@ func runCyclicTargets(c *core.Case) {
 		s := make([]any, 2)
 		s[0], s[1] = &s[1], &s[0]
 		target = &s
+	case 6:
+		name = "named-interface-self"
+		h := new(dynHolder)
+		h.X = &h.X
+		target = h
+	case 7:
+		name = "named-interface-two"
+		h := new(dynHolder)
+		var b dynT
+		h.X, b = &b, &h.X
+		target = h
+	case 8:
+		name = "named-and-plain-interface"
+		h := new(dynHolder)
+		var a any
+		h.X, a = &a, &h.X
+		target = h
 	default:
 		name = "two-in-map-value"
 		var a, b any
@@ -587,14 +647,14 @@ func runCyclicTargets(c *core.Case) {
 func init() {
 	core.Register(&core.Monitor{
 		Prop:    "C06",
-		Rule:    "decode-fuzz: arbitrary bytes, token soups, truncated and mutated documents into guarded targets (struct{Pre [4]uint64; V T; Post [4]uint64} with canary words) of generated and library types, zero or pre-filled, through Unmarshal, Parse with a random 9-bit flag word, Decoder.Decode (chunked reader ending in an error; UseNumber/DisallowUnknownFields/ZeroCopy), Valid, Tokenizer and invalid targets; whatever Unmarshal left in the target is encoded again (every pointer in it is followed). encode-values: maps with values of a non-empty interface type (Stringer, error, Marshaler, io.Reader; also as decode targets), generated values incl. pointer-shaped corners by value, by pointer, as map value, in a one-element array and inside interfaces through Marshal/Append/Encoder/MarshalIndent. cycles: 20 cyclic shapes through pointers, slices, maps, empty and non-empty interfaces, recursive named slice/map/array types must return an error. cyclic-targets: decoding into interfaces that hold pointers to each other (cycles of 1-3, through a field, slice elements, map values). deep-encode / deep-decode: nesting of 10 .. 10^6 levels (3*10^6 for documents) in 5 shapes each. A recovered panic, a canary change, a process death attributed by the journal (SIGSEGV, stack overflow, checkptr, ASan report, out of memory) or a CPU-time budget overrun confirmed in a fresh process is a violation; no functional comparison. Distinct by (type, document) / shape.",
+		Rule:    "decode-fuzz: arbitrary bytes, token soups, truncated and mutated documents into guarded targets (struct{Pre [4]uint64; V T; Post [4]uint64} with canary words) of generated and library types, zero or pre-filled, through Unmarshal, Parse with a random 9-bit flag word, Decoder.Decode (chunked reader ending in an error; UseNumber/DisallowUnknownFields/ZeroCopy), Valid, Tokenizer and invalid targets; whatever Unmarshal left in the target is encoded again (every pointer in it is followed). encode-values: slices, arrays and maps of byte-kind element types with value- and pointer-receiver (un)marshalers as decode targets and values, maps with values of a non-empty interface type (Stringer, error, Marshaler, io.Reader; also as decode targets), generated values incl. pointer-shaped corners by value, by pointer, as map value, in a one-element array and inside interfaces through Marshal/Append/Encoder/MarshalIndent. cycles: 20 cyclic shapes through pointers, slices, maps, empty and non-empty interfaces, recursive named slice/map/array types must return an error. cyclic-targets: decoding into interfaces that hold pointers to each other (cycles of 1-3, through a field, slice elements, map values, named empty interface types). deep-encode / deep-decode: nesting of 10 .. 10^6 levels (3*10^6 for documents) in 5 shapes each. A recovered panic, a canary change, a process death attributed by the journal (SIGSEGV, stack overflow, checkptr, ASan report, out of memory) or a CPU-time budget overrun confirmed in a fresh process is a violation; no functional comparison. Distinct by (type, document) / shape.",
 		Trusted: []string{"the supervisor's crash attribution (journal + stderr signature)", "Go race detector's checkptr and AddressSanitizer for the unsafe paths", "process CPU-time clock for bounded progress"},
 		Subs: []core.Sub{
 			{Name: "decode-fuzz", N: core.Const(24000, 1000000), Run: runDecodeFuzz},
 			{Name: "encode-values", N: core.Const(12000, 400000), Run: runEncodeValues},
 			{Name: "cycles", N: core.Const(nCycleShapes, nCycleShapes*3), Run: runCycles},
 			{Name: "deep-encode", N: func(core.Tier) int { return len(deepShapes) * len(depths) }, Run: runDeepEncode, Modes: []string{"plain"}},
-			{Name: "cyclic-targets", N: func(core.Tier) int { return 6 * len(cyclicTargetDocs) }, Run: runCyclicTargets, Modes: []string{"plain"}},
+			{Name: "cyclic-targets", N: func(core.Tier) int { return 9 * len(cyclicTargetDocs) }, Run: runCyclicTargets, Modes: []string{"plain"}},
 			{Name: "deep-decode", N: func(core.Tier) int { return len(docShapes) * 7 * 2 }, Run: runDeepDecode, Modes: []string{"plain", "race"}},
 		},
 	})
